@@ -53,12 +53,12 @@ Print Assumptions C20_pinned_encoder_refuted.
    list, receptor-name verification with expected ID [x] succeeds if and only if [x] is one of [ids] *)
 From Receptor Require Import Model.Tls Proofs.Tls.
 
-Theorem C20_verify_accepts_exactly_requested : forall dns ips ids v vt r pins x f,
+Theorem C20_verify_accepts_exactly_requested : forall dns ips ids v vt r pins x f now,
   san_ok dns ips ids = true -> forallb utf8_valid ids = true ->
   make_san dns ips ids = Ok v ->
   f_names f = names_of_san (Some v) ->
   f_present f = true -> f_parses f = true -> role_of vt = Some r ->
-  chain_ok r f = true -> f_time_ok f = true -> eku_ok r f = true -> pins_ok pins f ->
-  (verify (mkCfg vt HOST_RECEPTOR x pins) f = Accept <-> In x ids).
+  chain_ok r f = true -> time_ok f now = true -> eku_ok r f = true -> pins_ok pins f ->
+  (verify (mkCfg vt HOST_RECEPTOR x pins) f now = Accept <-> In x ids).
 Proof. exact verify_accepts_exactly_requested. Qed.
 Print Assumptions C20_verify_accepts_exactly_requested.
